@@ -72,7 +72,8 @@ Section LM.
   | cs_hit : forall c t id k, cc_ph c t = CRdIn id (Seq.OFetch k) ->
       is_miss (snd (C07.Defs.fetch now k (cc_st c))) = false ->
       cstep c (mkCC (cc_st c) (updo (cc_ph c) t (CRdHit id k)) (cc_next c) (cc_hist c))
-  (* lru.erase(p->second.lru); lru.push_front(p); p->second.lru = lru.begin();   under lru_mutex: one atomic step *)
+  (* lru.splice(lru.begin(), lru, p->second.lru)   under lru_mutex: one atomic step (the node of the entry moves to the front;
+     the entry's own iterator c.lru is only read and stays valid; before /repo 117bb4c: erase + push_front + iterator assignment) *)
   | cs_move : forall c t id k, cc_ph c t = CRdHit id k ->
       cstep c (mkCC (C07.Defs.set_lru (cc_st c) (k :: C07.Defs.kremove k (C07.Defs.lru (cc_st c))))
                     (updo (cc_ph c) t (CRdMoved id k)) (cc_next c) (cc_hist c))
